@@ -42,11 +42,21 @@ def trips(path, body_path, fid=None):
         widened_at = None
         for n, (i, x) in enumerate(arr):
             nxt = arr[n + 1] if n + 1 < len(arr) else None
-            end = nxt[0] if nxt else len(path.trace)
+            if nxt is not None:
+                # an arrival at an enclosing loop's header in between: the loop was left and entered again
+                outer = set(x[6]) if len(x) > 6 else set()
+                if any(k == "e" and y[0] == "loophead" and y[2] == body_path and y[3] == f and y[1] in outer for k, y in path.trace[i + 1:nxt[0]]):
+                    nxt = None
+            if nxt is None and n + 1 < len(arr):
+                # the segment up to the re-entry belongs to the enclosing loop
+                end = i + 1
+                while end < len(path.trace) and not (path.trace[end][0] == "e" and path.trace[end][1][0] == "loophead" and path.trace[end][1][2] == body_path
+                                                    and path.trace[end][1][3] == f and path.trace[end][1][1] in (set(x[6]) if len(x) > 6 else set())):
+                    end += 1
+            else:
+                end = nxt[0] if nxt else len(path.trace)
             items = path.trace[i + 1:end]
-            # a trip is general if the widening happened at this arrival
-            general = any(k == "e" and y[0] == "widen" and y[1] == h and y[2] == body_path for k, y in path.trace[max(0, i - 1):i + 2])
-            # (the widen event is appended right before the loophead event of the same arrival)
+            # a trip is general if the widening happened at this arrival (the widen event precedes the loophead event)
             general = i > 0 and path.trace[i - 1][0] == "e" and path.trace[i - 1][1][0] == "widen" and path.trace[i - 1][1][1] == h
             post = nxt[1][4] if nxt else None
             out.append(Trip(h, f, x[5] if x[5] is not None else x[4], post, items, general, i))
